@@ -1,0 +1,16 @@
+//go:build verif
+
+package settlement
+
+// Machine-checked contracts (govc, see /verif/DESIGN.md). Comment-only file.
+
+//@ fileprops C35
+
+// The payment transactions of the basic income collection are Alphabet-signed; the sender
+// helper demands the membership check from its caller (HandleBasicIncomeEvent's handler
+// makes it), and its worker closure lives inside the helper.
+//@ ghost pred isAlpha() bool
+//@ func (*Processor).sendPaymentTXs
+//@   requires [caller_checked_alphabet_membership] isAlpha()
+//@ func (*Processor).sendPaymentTXs$1
+//@   requires [created_only_inside_the_guarded_helper] isAlpha()
